@@ -352,6 +352,7 @@ MUTANTS: List[Dict] = [
     M("query7-bottom-start", "breaking", TR, "            doms[n] = set(nodes)\n            todo.append(n)\n", "            doms[n] = {n}\n            todo.append(n)\n", ["QUERY-7"]),
     M("query7-non-strict", "breaking", TR, "    idoms = {k: v - {k} for k, v in doms.items()}\n", "    idoms = {k: set(v) for k, v in doms.items()}\n", ["QUERY-7"]),
     M("ok-query7-fifo", "benign", TR, "    while todo:\n        n = todo.pop()\n        if n in entries:\n", "    while todo:\n        n = todo.pop(0)\n        if n in entries:\n", []),
+    M("ok-use1-loop-variable-after-loop", "benign", RE, "        for name, block in byteflow.scfg.graph.items():\n            self.render_block(self.g, name, block)\n        self.render_edges(byteflow.scfg)\n", "        for name, block in byteflow.scfg.graph.items():\n            self.render_block(self.g, name, block)\n            last = name\n        logging.getLogger(__name__).debug(\"last block %s\", last)\n        self.render_edges(byteflow.scfg)\n", [], "a zero-trip loop is not reported by USE-1"),
     # ------------------------------------------------ benign
     M("ok-rename-locals", "benign", TR, None, None, [], "rename locals of loop_restructure_helper (computed edit)"),
     M("ok-sorted-key", "benign", TR, "    for name in sorted(loop):\n", "    for name in sorted(loop, key=str):\n", []),
